@@ -328,6 +328,16 @@ func (t *truth) resolveScript(script string, from uint64) []scriptItem {
 				p, _ := t.packet('t', r)
 				items = append(items, scriptItem{pkt: p})
 			}
+		case tok[0] == 'k': // k<H>: the stream starts one round late (rounds from+1 .. H): the peer holds no record of round `from`
+			h, err := strconv.ParseUint(tok[1:], 10, 64)
+			if err != nil || h < from+1 {
+				items = append(items, scriptItem{close: true})
+				continue
+			}
+			for r := from + 1; r <= h; r++ {
+				p, _ := t.packet('t', r)
+				items = append(items, scriptItem{pkt: p})
+			}
 		case len(tok) >= 3 && (tok[1] == '+' || tok[1] == '@'):
 			v, err := strconv.ParseUint(tok[2:], 10, 64)
 			if err != nil {
@@ -402,13 +412,15 @@ func (m *mockClient) SyncChain(ctx context.Context, p net.Peer, in *drand.SyncRe
 			script = ss[len(ss)-1]
 		}
 	}
-	myGen := m.nOpen.Add(1) // the id of this stream; only the latest stream counts as "parked"
+	// a waiter that sees nOpen move must already see this stream as active and not parked
 	m.parked.Store(0)
+	m.active.Add(1)
+	myGen := m.nOpen.Add(1) // the id of this stream; only the latest stream counts as "parked"
 	if script == "err" {
+		m.active.Add(-1)
 		return nil, errors.New("verif: scripted dial error")
 	}
 	items := m.t.resolveScript(script, from)
-	m.active.Add(1)
 	ch := make(chan *drand.BeaconPacket) // unbuffered: a send completes when tryNode is in its select
 	start := m.stored.Load()
 	m.wg.Add(1)
@@ -830,6 +842,79 @@ func (b *logBuf) waitCount(pred func(string) bool, n int, d time.Duration) bool 
 	return false
 }
 
+func runEndedPred(l string) bool {
+	return strings.Contains(l, "sync was unsuccessful") || strings.Contains(l, "sync completed successfully")
+}
+
+// runRequest hands one request to the running `Run` (followed by a sentinel request that is always "already filled") and
+// reports what Run decided for it: filled | start | ignore | hang. After "start" the new Sync has made its first move.
+func runRequest(s *syncSUT, upTo uint64, peers []net.Peer) string {
+	mark := runLog.len()
+	opened := s.cl.nOpen.Load()
+	s.sm.SendSyncRequest(context.Background(), upTo, peers)
+	s.sm.SendSyncRequest(context.Background(), 1, nil) // sentinel: always "already filled", changes nothing
+	idx := runLog.waitFor(mark, func(l string) bool {
+		return strings.Contains(l, "skipping_request") && (strings.Contains(l, `"request":1}`) || strings.Contains(l, `"request":1,`))
+	}, 10*time.Second)
+	if idx < 0 {
+		return "hang"
+	}
+	dec := "ignore"
+	for _, l := range runLog.slice(mark, idx) {
+		if strings.Contains(l, "skipping_request") {
+			dec = "filled"
+		}
+		if strings.Contains(l, "canceling old sync as it took long") {
+			dec = "start"
+		}
+	}
+	if dec == "start" {
+		runStarts++
+		// the new Sync goroutine has asked its first peer (or has returned without asking anybody)
+		dl := time.Now().Add(10 * time.Second)
+		for time.Now().Before(dl) {
+			if s.cl.nOpen.Load() != opened || runLog.count(runEndedPred) >= runStarts {
+				break
+			}
+			time.Sleep(100 * time.Microsecond)
+		}
+		if s.cl.nOpen.Load() == opened && runLog.count(runEndedPred) < runStarts {
+			return "hang-start"
+		}
+	}
+	return dec
+}
+
+// runSettle waits until the node is quiescent: every opened stream ended or is parked in its stall, Run consumed the beacons
+// reported, and every sync Run started has either logged its end or is the one parked.
+func runSettle(s *syncSUT, d time.Duration) (ended int, ok bool) {
+	deadline := time.Now().Add(d)
+	for time.Now().Before(deadline) {
+		ended = runLog.count(runEndedPred)
+		if s.cl.active.Load() == 0 && len(s.sm.VerifSyncedChan()) == 0 &&
+			(ended == runStarts || (ended == runStarts-1 && s.cl.parked.Load() >= 1)) {
+			// Run has RECEIVED every beacon reported, but may not have executed `lastRoundTime = s.clock.Now()` yet: were the
+			// fake clock advanced now, that beacon would be stamped with the later time (an artefact of a jumping clock).
+			// Run is one goroutine: once it has answered a sentinel request sent now, the beacon arm is behind it.
+			if !runBarrier(s, time.Until(deadline)) {
+				return ended, false
+			}
+			return ended, true
+		}
+		time.Sleep(200 * time.Microsecond)
+	}
+	return ended, false
+}
+
+// runBarrier returns once Run has gone through its loop after everything it had received before the call.
+func runBarrier(s *syncSUT, d time.Duration) bool {
+	mark := runLog.len()
+	s.sm.SendSyncRequest(context.Background(), 1, nil) // always "already filled", changes nothing
+	return runLog.waitFor(mark, func(l string) bool {
+		return strings.Contains(l, "skipping_request") && (strings.Contains(l, `"request":1}`) || strings.Contains(l, `"request":1,`))
+	}, d) >= 0
+}
+
 func syncEngine(args []string, in *bufio.Scanner, out *bufio.Writer) {
 	if pf := os.Getenv("VERIF_PROF"); pf != "" {
 		if f, err := os.Create(pf); err == nil {
@@ -924,67 +1009,78 @@ func syncEngine(args []string, in *bufio.Scanner, out *bufio.Writer) {
 				sec, _ := strconv.Atoi(f[1])
 				runClock.Advance(time.Duration(sec) * time.Second)
 				return "ok"
-			case "settle": // wait until the node is quiescent: every opened stream ended or is parked in its stall, Run consumed
-				// the beacons reported, and every sync Run started has either logged its end or is the one parked
-				endedPred := func(l string) bool {
-					return strings.Contains(l, "sync was unsuccessful") || strings.Contains(l, "sync completed successfully")
+			case "settle": // wait until the node is quiescent (runSettle)
+				ended, ok := runSettle(s, 10*time.Second)
+				if !ok {
+					return "hang"
 				}
-				deadline := time.Now().Add(5 * time.Second)
-				for time.Now().Before(deadline) {
-					ended := runLog.count(endedPred)
-					if s.cl.active.Load() == 0 && len(s.sm.VerifSyncedChan()) == 0 &&
-						(ended == runStarts || (ended == runStarts-1 && s.cl.parked.Load() >= 1)) {
-						// the channel is empty as soon as Run has RECEIVED the beacon; the assignment `lastRoundTime = Now()`
-						// comes after. A sentinel request ("already filled") goes through the same loop: once its log line
-						// is there, the body of the previous case has run — otherwise a clock advance right after `settle`
-						// could be the time Run records (seen under a load average of 100: a spurious "ignore").
-						mark := runLog.len()
-						s.sm.SendSyncRequest(context.Background(), 1, nil)
-						if runLog.waitFor(mark, func(l string) bool { return strings.Contains(l, "skipping_request") }, 5*time.Second) < 0 {
-							return "hang"
-						}
-						l, _ := s.top.Last(s.ctx)
-						return fmt.Sprintf("ok stored=%d head=%d ended=%d", s.base.n.Load(), l.Round, ended)
-					}
-					time.Sleep(200 * time.Microsecond)
-				}
-				return "hang"
+				l, _ := s.top.Last(s.ctx)
+				return fmt.Sprintf("ok stored=%d head=%d ended=%d", s.base.n.Load(), l.Round, ended)
 			case "req": // req <upTo> <end|go> peers…
 				upTo := parseU(f[1])
 				addrs, scripts := parsePeers(f[3:])
 				s.cl.reset(scripts, upTo, func() {})
 				s.cl.runMode = true
-				mark := runLog.len()
-				opened := s.cl.nOpen.Load()
-				s.sm.SendSyncRequest(context.Background(), upTo, peersOf(addrs))
-				s.sm.SendSyncRequest(context.Background(), 1, nil) // sentinel: always "already filled", changes nothing
-				idx := runLog.waitFor(mark, func(l string) bool {
-					return strings.Contains(l, "skipping_request") && strings.Contains(l, `"request":1}`) || strings.Contains(l, `"request":1,`) && strings.Contains(l, "skipping_request")
-				}, 5*time.Second)
-				if idx < 0 {
-					return "hang"
+				return runRequest(s, upTo, peersOf(addrs))
+			case "renew": // renew <seed> <upTo> <R> peers…: the daemon re-issues the request (after runinit) every factor*period+1
+				// seconds of the fake clock, at most R times, until the head is at the target. math/rand is seeded with <seed>
+				// so that what rand.Perm answers inside Sync is reproducible. Answer: reached|exhausted n=<renewals made>
+				// head=<h> syncs=<per renewal: the peers asked, in the order asked, a.b.c; renewals separated by |> w=<writes>
+				seed := int64(parseU(f[1]))
+				upTo := parseU(f[2])
+				R, _ := strconv.Atoi(f[3])
+				addrs, scripts := parsePeers(f[4:])
+				s.cl.reset(scripts, upTo, func() {})
+				s.cl.runMode = true
+				rand.Seed(seed)
+				s.base.take()
+				gap := time.Duration(beacon.VerifSyncExpiryFactor()*runPeriod+1) * time.Second
+				reached := func() bool {
+					l, err := s.top.Last(s.ctx)
+					return err == nil && upTo > 0 && l.Round >= upTo
 				}
-				dec := "ignore"
-				for _, l := range runLog.slice(mark, idx) {
-					if strings.Contains(l, "skipping_request") {
-						dec = "filled"
+				var syncs []string
+				for k := 0; k < R && !reached(); k++ {
+					runClock.Advance(gap)
+					s.cl.mu.Lock()
+					before := len(s.cl.calls)
+					s.cl.mu.Unlock()
+					dec := runRequest(s, upTo, peersOf(addrs))
+					if strings.HasPrefix(dec, "hang") {
+						return dec
 					}
-					if strings.Contains(l, "canceling old sync as it took long") {
-						dec = "start"
+					if _, ok := runSettle(s, 10*time.Second); !ok {
+						return "hang-settle"
+					}
+					if dec != "start" {
+						syncs = append(syncs, "!"+dec)
+						continue
+					}
+					s.cl.mu.Lock()
+					var asked []string
+					for _, c := range s.cl.calls[before:] {
+						asked = append(asked, c[:strings.LastIndexByte(c, '@')])
+					}
+					s.cl.mu.Unlock()
+					if len(asked) == 0 {
+						syncs = append(syncs, "-")
+					} else {
+						syncs = append(syncs, strings.Join(asked, "."))
 					}
 				}
-				if dec == "start" {
-					runStarts++
-					// the new Sync goroutine has asked its first peer
-					dl := time.Now().Add(5 * time.Second)
-					for s.cl.nOpen.Load() == opened && time.Now().Before(dl) {
-						time.Sleep(100 * time.Microsecond)
-					}
-					if s.cl.nOpen.Load() == opened {
-						return "hang-start"
-					}
+				res := "exhausted"
+				if reached() {
+					res = "reached"
 				}
-				return dec
+				head := "err"
+				if l, err := s.top.Last(s.ctx); err == nil {
+					head = strconv.FormatUint(l.Round, 10)
+				}
+				sy := "-"
+				if len(syncs) > 0 {
+					sy = strings.Join(syncs, "|")
+				}
+				return fmt.Sprintf("%s n=%d head=%s syncs=%s w=%s", res, len(syncs), head, sy, s.showWrites())
 			case "check":
 				l, err := s.sm.CheckPastBeacons(s.ctx, parseU(f[1]), nil)
 				if err != nil {
